@@ -32,6 +32,7 @@ RULE = (
     "target at alpha = 0.1; distinct = replicate seeds."
     " Every fifth pipeline replicate models two collections of different size jointly (larger first or last); each collection is an observation."
     " sorted_ties / decoys_first_ties: the coarse design with the file sorted by label (all targets first / all decoys first) and the confidence stage split so that a spectrum's target and decoy sit in different chunks."
+    " reuse: models saved by one interpreter session re-score the same collection (string-valued key member) in another session with another hash seed; FDP judged as one cell."
 )
 ASSUMPTIONS = [
     "statistical decision: exchangeability holds by construction of the simulator only; false-alarm probability per cell < 1e-8 under the property",
@@ -77,6 +78,11 @@ def plan(seed, tier):
     for i in range(4 if tier == "quick" else 24):
         cases.append({"class": "sorted_ties", "index": i, "top": 1, "grid": [0.75, 1.5][i % 2], "pi1": [0.15, 0.4][i % 2],
                       "order": "targets_first", "reps": 60, "cost": 8})
+    # saved models re-score the same collection in another interpreter session (documented: brew(model=[trained
+    # models])): each model must again meet only the PSMs of its own held-out fold, also when the spectrum key has a
+    # string-valued member and the sessions run with different hash seeds
+    for i in range(6 if tier == "quick" else 30):
+        cases.append({"class": "reuse", "index": i, "learner": ["tree:proba", "knn:proba"][i % 2], "folds": 3, "reps": [0, 1, 2, 3], "cost": 30})
     # the mirrored layout (all decoys first): ties then go to the decoys, which is conservative and must stay so
     for i in range(4 if tier == "quick" else 24):
         cases.append({"class": "decoys_first_ties", "index": i, "top": 1, "grid": [0.75, 1.5][i % 2], "pi1": [0.15, 0.4][i % 2],
@@ -84,7 +90,7 @@ def plan(seed, tier):
     return cases
 
 
-MANDATORY_CLASSES = ["pipeline", "small", "coarse", "sorted_ties", "decoys_first_ties"]
+MANDATORY_CLASSES = ["pipeline", "small", "coarse", "sorted_ties", "decoys_first_ties", "reuse"]
 
 
 def simulate(rng, design, n_spectra, pi1, file_index=0, n_info=None, sep=None):
@@ -285,7 +291,61 @@ def run_coarse(case):
     return res
 
 
+def run_reuse(case):
+    from vf.props.c05 import _subprocess_run
+
+    res = Result(case, key=[f"reuse/{case['seed']}/{case['index']}/{r}" for r in case["reps"]])
+    obs = []
+    nt = 0
+    for r in case["reps"]:
+        rng = core.seed_seq(case["seed"], "C04", "reuse", case["index"], r)
+        with core.scratch("c04r") as d:
+            tab = psm.psm_table(rng, n_spectra=int(rng.choice([600, 1000])), paired=True, pi1=float(rng.choice([0.2, 0.4])),
+                                key_cols=("filename", "ExpMass"), n_files=3, n_info=2, n_noise=2, sep_strength=2.5, pep_pool=150)
+            path = psm.write_pin(tab, d / "t.pin")
+            common = dict(paths=[str(path)], learner=case["learner"], folds=case["folds"], seed=int(rng.integers(1 << 30)),
+                          test_fdr=0.05, train_fdr=0.05, max_iter=2, workers=1, peps_algorithm="qvality", rollup=True)
+            first = _subprocess_run(dict(common, dest=str(d / "run1"), dump_models=str(d / "models.pkl")), {}, hashseed=str(101 + r))
+            res.count("subprocess_runs")
+            if first.get("status") != "ok":
+                res.count("first_run_not_ok:" + str(first.get("sig") or first.get("status")))
+                continue
+            second = _subprocess_run(dict(common, dest=str(d / "run2"), load_models=str(d / "models.pkl")), {}, hashseed=str(202 + r))
+            res.count("subprocess_runs")
+            res.count("replicates")
+            if second.get("status") != "ok":
+                if second.get("status") == "harness_error" or not second.get("explicit"):
+                    if second.get("stage") == "confidence" and "peps.py" in str(second.get("sig")):
+                        res.count("confidence_failed_replicates")
+                        continue
+                    res.violate("crash", str(second.get("sig") or second.get("status")), msg=str((second.get("error") or {}).get("msg") or second.get("trace"))[:300],
+                                learner=case["learner"])
+                else:
+                    res.count("refused_replicates")
+                continue
+            # documented consequence checked exactly: the re-scored PSMs carry the first run's scores
+            if first.get("scores_sha") != second.get("scores_sha"):
+                res.count("rescoring_changed_scores")
+            files = pipeline.read_results(d / "run2")
+            rec = {"rep": r, "n": len(tab["df"])}
+            for lvl in ("psms", "peptides"):
+                f = fdp_from_files(files, tab["truth"], lvl)
+                if f:
+                    rec[lvl] = {str(a): v for a, v in f.items()}
+            obs.append(rec)
+            if rec.get("psms", {}).get("0.1", (0, 0))[1] > 0:
+                nt += 1
+    res["obs"] = obs
+    res["evals"] = len(case["reps"])
+    res["nontrivial"] = nt > 0
+    if obs:
+        res["sample"] = {"learner": case["learner"], "first_replicate": obs[0]}
+    return res
+
+
 def run_case(case):
+    if case["class"] == "reuse":
+        return run_reuse(case)
     return {"pipeline": run_pipeline, "small": run_small, "coarse": run_coarse, "sorted_ties": run_coarse, "decoys_first_ties": run_coarse}[case["class"]](case)
 
 
@@ -296,7 +356,7 @@ def finalize(cases, results, tier):
         c = bycase.get(r.get("id"))
         if not c or not r.get("obs"):
             continue
-        key = ("small",) if c["class"] == "small" else (c["class"], f"levels={2 * c['top'] + 1}", f"grid={c['grid']}", f"pi1={c['pi1']}") if c["class"] in ("coarse", "sorted_ties", "decoys_first_ties") else (c["design"], c["learner"], c["folds"])
+        key = ("small",) if c["class"] == "small" else ("reuse", "saved_models_other_session") if c["class"] == "reuse" else (c["class"], f"levels={2 * c['top'] + 1}", f"grid={c['grid']}", f"pi1={c['pi1']}") if c["class"] in ("coarse", "sorted_ties", "decoys_first_ties") else (c["design"], c["learner"], c["folds"])
         groups.setdefault(key, []).extend(r["obs"])
     table = []
     out = []
@@ -320,7 +380,7 @@ def finalize(cases, results, tier):
                 table.append({"cell": "/".join(map(str, key)), "level": lvl, "alpha": a, "R": R, "mean_fdp": round(m, 4),
                               "se": round(se, 4), "mean_accepted": round(acc, 1), "verdict": verdict})
                 if verdict == "violated":
-                    rr = Result({"id": None, "class": key[0] if key[0] in ("small", "coarse", "sorted_ties", "decoys_first_ties") else "pipeline"}, key="/".join(map(str, key)))
+                    rr = Result({"id": None, "class": key[0] if key[0] in ("small", "coarse", "sorted_ties", "decoys_first_ties", "reuse") else "pipeline"}, key="/".join(map(str, key)))
                     rr["evals"] = 0
                     rr.violate("fdr_not_controlled", f"{'/'.join(map(str, key))}/{lvl}/alpha={a}", mean_fdp=m, se=se, R=R,
                                alpha=a, mean_accepted=acc)
